@@ -20,13 +20,25 @@ NOTE = ("Trusted base: Lean 4.33 kernel; axioms propext/Classical.choice/Quot.so
 WLSNOTE = ("The executable reference solves the system whose coefficients 1/K and weights are rounded to 128 significant bits "
            "(DESIGN §4b); LSQR convergence and lstsq accuracy are exercised by the tolerance comparison (1e-3 sd), not proved. ")
 
+DESIGN_COMMON = ("Design matrix inside the model: Model/Design holds the row/column index vectors of every COO block exactly as the solver "
+                 "spells them (np.arange/tile/repeat); the translator re-reads them from the current source and proves gen = model by rfl on "
+                 "every run (blocks, shapes, constant data, stacking order, three-way splice rule); Lemmas/NumpyIdx + Lemmas/Design give length "
+                 "and entry formulas for every size; ")
+DESIGN_S = (DESIGN_COMMON + "design_model_ref_row, design_ta_matches_model (the code stores a splice coefficient at (row of observation (r,j), loss of "
+            "splice a at time j) iff the model's row has it, for all nt, nx, nta and splice positions), design_c_matches_model, "
+            "design_dalpha_matches_model, Design.sTa_injective (no entry twice), sMt_entry (matching rows); every block is also compared "
+            "entry for entry with the real solver output (driver op design). ")
+DESIGN_D = (DESIGN_COMMON + "design_model_fw_row / _bw_row, design_ta_fw_matches_model, design_ta_bw_matches_model, design_d_matches_model, "
+            "design_E_matches_model, design_E_first_row (for all sizes); every block of construct_submatrices is also compared entry for "
+            "entry with the real output (driver op design). ")
+
 CLAIMED = {
     "C01": ("Lean 4: normal equations => global minimiser (Mathlib, any ordered field) + result-checked exact rational WLS in the model + bridge theorem; differential correspondence of the captured (X,y,w), optimum, covariance, layout, tmpf",
             "Proof: Theory.normalEq_min / normalEq_fitted_unique / exact_recovery; bridge check_sound (the model's exact check implies "
             "the normal equations on Mathlib matrices); C01_solution_minimises, C01_fitted_unique, C01_cov_is_ginverse, C01_dof, "
             "C01_fixed_reported, C01_column_scaling (the unit-norm column scaling of wls_sparse: un-scaled solution minimises the posed "
             "WSSR, un-scaled g-inverse is one of the posed normal matrix); weight alignment refuted (C01_w_aligned_refuted, registered known finding) with "
-            "C01_w_aligned_partial. Every run: seeded Raman fibres (10 m..10 km, 0-2 splices, 0-2 matching pairs, four variance "
+            "C01_w_aligned_partial. " + DESIGN_S + "Every run: seeded Raman fibres (10 m..10 km, 0-2 splices, 0-2 matching pairs, four variance "
             "forms); the system reaching the solver is compared row by row with the model's, LSQR's optimum and lstsq's covariance "
             "with the exact optimum, the full-layout p_val/p_cov/tmpf with the model; independent Python Spec oracle.",
             NOTE + TRANSL + WLSNOTE, "§8 C01"),
@@ -35,18 +47,19 @@ CLAIMED = {
             "C02_alpha_zero_at_first, C02_cov_positions, C02_ta_index, the splice gauge (C02_splice_gauge_temperatures: db+=d, both losses "
             "of a splice -=d, alpha+=d downstream changes no temperature; C02_splice_gauge_alpha_outside: alpha outside the sections moves "
             "with it), on the model Calib.calibrate (alphaOutside = inverse-variance "
-            "time average). Every run: double-ended fibres, rows/optimum/covariance/p_val/p_cov/tmpf/tmpb vs the model; with the "
+            "time average). " + DESIGN_D + "Every run: double-ended fibres, rows/optimum/covariance/p_val/p_cov/tmpf/tmpb vs the model; with the "
             "solver replaced by a tagged stub every reduced parameter, variance and covariance must sit at its documented index "
             "(also with fix_gamma); gauge-independent oracle for alpha outside the reference sections (the property's formula on the "
             "result's own parameters).",
             NOTE + TRANSL + WLSNOTE + "With splices only the weighted SSR (estimable) is compared.", "§8 C02"),
     "C03": ("Lean 4: exact-recovery theorem (normal equations + y = X p0 => fitted values, and parameters under full column rank) on the model's checked solve; noise-free end-to-end recovery over the option cross product",
             "Proof: C03_recovery (from Theory.exact_recovery and the bridge), C03_temperature_at_fitted_row (gamma/(I+o) = K when "
-            "the row is reproduced), C03_matching_row, C03_match_pairing. Every run: noise-free Raman data x {single, double} x "
+            "the row is reproduced), C03_matching_row, C03_match_pairing, C03_splice_mask_consistent, design_splice_rule (the splice rule of the three "
+            "design-matrix builders, re-read from the source each run, is the model's rule = the mask x >= splice of the temperature equation). Every run: noise-free Raman data x {single, double} x "
             "{0,1,2 splices on/between grid points} x {references everywhere, front-only + matching} x {free, fix_gamma, fix_dalpha, "
             "fix_alpha, fix_alpha+fix_gamma}: tmpf/tmpb/tmpw within 1e-5 K of the truth everywhere, gamma/dalpha recovered; same "
             "data through the exact model.",
-            NOTE + WLSNOTE + "Identifiability is by construction of the generator and confirmed by the exact model's rank.", "§8 C03"),
+            NOTE + TRANSL + WLSNOTE + "Identifiability is by construction of the generator and confirmed by the exact model's rank.", "§8 C03"),
     "C04": ("Lean 4: bijection of the documented layouts onto [0, npar) for all sizes + equation theorems; exhaustive layout/tagged-external correspondence and bit-exact external round trips",
             "Proof: C04_layout_partition_double / _single (every parameter has exactly one slot, for all nt, nx, nta), "
             "C04_model_columns_* (the model's columns are those slots; splice index = F-order reshape), C04_tmpf_equation_double, "
